@@ -14,8 +14,10 @@ import Driver.Tls
 import Driver.Adapter
 import Driver.Flow
 import Driver.CHelpers
+import Driver.Amp
 
 structure World where
+  amp : Drv.AmpW := {}
   chelpers : Drv.CW := {}
   flow : Drv.FlowW := {}
   adp : Drv.AdpW := {}
@@ -87,6 +89,9 @@ def step (w : World) (line : String) : World × String :=
     else if t.startsWith "c." then
       let (s, o) := Drv.stepC w.chelpers toks
       ({ w with chelpers := s }, o)
+    else if t.startsWith "amp." then
+      let (s, o) := Drv.stepAmp w.amp toks
+      ({ w with amp := s }, o)
     else (w, "bad-op")
 
 partial def loop (hin hout : IO.FS.Stream) (w : World) : IO Unit := do
